@@ -225,7 +225,12 @@ func checkBindingKeys(p *Program, r *Result, rule string) {
 									hmsg = h.Params[i]
 								}
 							}
-							if hmsg != nil {
+							// tail call: the message too is what the helper returns
+							msgIdx := -1
+							if me, ok := msg.(*ssa.Extract); ok && me.Tuple == ce.Tuple {
+								msgIdx = me.Index
+							}
+							if hmsg != nil || msgIdx >= 0 {
 								n := 0
 								for _, hin := range instrsOf(h) {
 									hret, ok := hin.(*ssa.Return)
@@ -233,6 +238,9 @@ func checkBindingKeys(p *Program, r *Result, rule string) {
 										continue
 									}
 									n++
+									if msgIdx >= 0 {
+										hmsg = hret.Results[msgIdx]
+									}
 									hs, hc := hret.Results[se.Index], hret.Results[ce.Index]
 									hpos := p.pos(hret.Pos())
 									if ok, why := isTableGet(hc, "channels", hmsg, "ChannelID"); ok {
